@@ -92,3 +92,45 @@ Proof.
         -- intros [H|(_ & _ & H)]; [discriminate|lia].
 Qed.
 End D.
+
+(* ---------- Pareto domination is a strict partial order (on vectors of values satisfying the order laws) ---------- *)
+Section Order.
+Context {N : num} {ok : N -> Prop} (L : ord_laws N ok).
+
+Lemma weakly_trans a b : weakly (N := N) a b -> forall c, Forall ok a -> Forall ok b -> Forall ok c ->
+  weakly b c -> weakly a c.
+Proof.
+  induction 1 as [|x y a b Hxy Hw IH]; intros c Ha Hb Hc H2; inversion H2 as [|? z ? c' Hyz Hw2]; subst; constructor.
+  - pose proof (Forall_inv Ha) as Ox. pose proof (Forall_inv Hb) as Oy. pose proof (Forall_inv Hc) as Oz. cbn beta in *.
+    destruct (ltb N z x) eqn:E; [|reflexivity].
+    destruct (lt_cotrans _ _ L z y x Oz Oy Ox E) as [Hq|Hq]; congruence.
+  - apply IH; [exact (Forall_inv_tail Ha)|exact (Forall_inv_tail Hb)|exact (Forall_inv_tail Hc)|exact Hw2].
+Qed.
+
+Lemma weakly_length a b : weakly (N := N) a b -> length a = length b.
+Proof. induction 1; cbn; auto. Qed.
+
+(* a < b somewhere, b <= c everywhere  =>  a < c somewhere *)
+Lemma strictly_weakly_trans a b : strictly_somewhere (N := N) a b -> forall c, Forall ok a -> Forall ok b -> Forall ok c ->
+  weakly b c -> strictly_somewhere a c.
+Proof.
+  induction 1 as [x y a b Hlt Hlen|x y a b Hs IH]; intros c Ha Hb Hc H2; inversion H2 as [|? z ? c' Hyz Hw2]; subst.
+  - pose proof (Forall_inv Ha) as Ox. pose proof (Forall_inv Hb) as Oy. pose proof (Forall_inv Hc) as Oz. cbn beta in *.
+    constructor.
+    + destruct (lt_cotrans _ _ L x z y Ox Oz Oy Hlt) as [Hq|Hq]; [exact Hq|congruence].
+    + rewrite Hlen. exact (weakly_length _ _ Hw2).
+  - apply s_later. apply IH; [exact (Forall_inv_tail Ha)|exact (Forall_inv_tail Hb)|exact (Forall_inv_tail Hc)|exact Hw2].
+Qed.
+
+Lemma pdom_trans a b c : Forall ok a -> Forall ok b -> Forall ok c -> pdom a b -> pdom b c -> pdom (N := N) a c.
+Proof.
+  intros Ha Hb Hc [W1 S1] [W2 S2]. split; [exact (weakly_trans a b W1 c Ha Hb Hc W2)|exact (strictly_weakly_trans a b S1 c Ha Hb Hc W2)].
+Qed.
+
+Lemma pdom_irrefl a : Forall ok a -> ~ pdom (N := N) a a.
+Proof.
+  intros Ha [_ S]. induction a as [|x a IH]; inversion S; subst.
+  - inversion Ha; subst. rewrite (lt_irrefl _ _ L x) in * by assumption. discriminate.
+  - inversion Ha; subst. auto.
+Qed.
+End Order.
